@@ -77,12 +77,12 @@ def hashable(func):
     def wrapper(*args, **kwargs):
         new_args_list = list()
         for arg in args:
-            if isinstance(arg, np.ndarray):
+            if isinstance(arg, (np.ndarray, np.generic)):  # Also numpy scalars: as keys they are compared on their bytes
                 arg = HashArray(arg)
             new_args_list.append(arg)
 
         for k, v in kwargs.items():
-            if isinstance(v, np.ndarray):
+            if isinstance(v, (np.ndarray, np.generic)):
                 kwargs[k] = HashArray(v)
 
         # Hand out a copy, the memoized array must not be changed by the caller
